@@ -3,6 +3,7 @@ subprocess and, in parallel, through the in-process API on an identically
 configured Project.  stdin: {"jobs":[{id, seq:[class,...], seed}], "projdir": path};
 stdout: JSON list of {id, records:[...], requests:[...]}."""
 import ast
+from vlib import astpos  # noqa
 import hashlib
 import json
 import os
@@ -69,7 +70,7 @@ def name_ends(source):
     """positions (line, col) at the end of every Name / Attribute identifier"""
     out = []
     try:
-        tree = ast.parse(source)
+        tree = astpos.parse(source)
     except SyntaxError:
         return out
     for n in ast.walk(tree):
